@@ -171,7 +171,7 @@ c.cases(PAIRS)
 c.ensures('exactly-the-union', 'iff(result[0], %s or %s)' % (DEN_P, DEN_Q))
 c.ensures('operand-unchanged', 'iff(result[1], %s)' % DEN_Q)
 
-c = contract('bardolph/vm/machine.py', 'time_at_p_or_q', serves=['C11', 'C17'], name='lemma:Machine._time_pattern(INIT p; UNION q)', src='''
+c = contract('bardolph/vm/machine.py', 'time_at_p_or_q', serves=['C11', 'C17', 'C01', 'C10'], name='lemma:Machine._time_pattern(INIT p; UNION q)', src='''
 def time_at_p_or_q(self, p, q, H, M):
     from bardolph.vm.instruction import Instruction
     self._program = [Instruction(OpCode.TIME_PATTERN, SetOp.INIT, p), Instruction(OpCode.TIME_PATTERN, SetOp.UNION, q)]
